@@ -721,6 +721,13 @@ class SymExOperands:
 # ------------------------------------------------------------------ O4 ordering
 
 def check_order(eng, rep):
+    """O4: Ord::cmp is the lexicographic order on (len, weight, val) - decided by *value*: every comparison of a key of
+    self with the same key of other is replaced by a symbolic outcome, the decision tree of cmp (then_with closures applied,
+    early returns and matches on the outcome followed) is folded over all 27 outcome triples and compared with
+    `by len, then by weight, then by value`; (len, val) are all the fields the derived Eq looks at, so the order is
+    consistent with ==. partial_cmp must be Some(self.cmp(other))."""
+    from dtree import DTree, Stuck
+    from symex import apply_closure, strip as _strip
     facts = eng.facts
     cmpb = [b for b in eng.bodies if b.name == 'cmp' and b.impl and (b.impl.get('trait') or '').endswith('cmp::Ord')
             and b.impl.get('self_adt') == eng.adt]
@@ -729,52 +736,91 @@ def check_order(eng, rep):
         return
     b = cmpb[0]
     rep.saw(b)
-    closures = sorted([c for c in eng.bodies if c.kind == 'Closure' and c.d.get('parent') == b.defp], key=lambda c: c.defp)
-    seq = []
-    for body in [b] + closures:
-        keys = []
-        for p in eng.paths(body):
-            for e in p.calls():
-                if e.fn and e.fn['def'].endswith('cmp::Ord::cmp') and len(e.args) == 2:
-                    keys.append((key_of(eng, body, e.args[0]), key_of(eng, body, e.args[1])))
-        keys = sorted(set(keys))
-        if len(keys) != 1:
-            rep.violation('E4.O4-order-chain', '%s|cmp calls' % body.defp,
-                          '%s: expected exactly one key comparison, found %s' % (body.defp, keys), where=body.where())
-            return
-        seq.append(keys[0])
-    # chain shape: then_with(then_with(cmp, c0), c1)
-    main = [p for p in eng.paths(b) if p.end == 'return']
-    shape_ok = False
-    for p in main:
-        r = p.ret
-        n = 0
-        while r[0] == 'call' and r[1].endswith('Ordering::then_with'):
-            n += 1
-            r = r[2][0]
-        if r[0] == 'call' and r[1].endswith('Ord::cmp') and n == len(closures):
-            shape_ok = True
-    names = []
+    dt = DTree(facts)
+    LESS, EQ, GT = 255, 0, 1
+    used = set()
+
+    def key_side(t):
+        """('self'|'other', 'len'|'weight'|'val') for an operand of Ord::cmp, seen from cmp itself or from one of its closures"""
+        t = _strip(t)
+        if t[0] == 'call' and len(t[2]) == 1:
+            k = key_of(eng, b, t)
+            if k is None:
+                # inside a closure the receiver is a capture
+                k = key_of(eng, type('C', (), {'kind': 'Closure'})(), t)
+            return k
+        if t[0] == 'field' and t[2] in ('len', 'val'):
+            base = _strip(t[1])
+            if base == ('arg', 1):
+                return ('self', t[2])
+            if base == ('arg', 2):
+                return ('other', t[2])
+            if base[0] == 'field' and str(base[2]).lstrip('^').replace('_ref__', '') in ('self', 'other'):
+                return (str(base[2]).lstrip('^').replace('_ref__', ''), t[2])
+        return None
+
+    def make_atom(env):
+        def atom(t, ev):
+            if t[0] == 'call' and t[1].endswith('cmp::Ord::cmp') and len(t[2]) == 2:
+                ka, kb = key_side(t[2][0]), key_side(t[2][1])
+                if ka is None or kb is None or ka[1] != kb[1] or {ka[0], kb[0]} != {'self', 'other'}:
+                    raise Stuck('comparison of %s with %s' % (ka, kb))
+                used.add(ka[1])
+                o = env[ka[1]]
+                if ka[0] == 'other':       # other.k.cmp(self.k): reversed
+                    o = {LESS: GT, GT: LESS, EQ: EQ}[o]
+                return (o,)
+            if t[0] == 'call' and t[1].endswith('Ordering::then_with') and len(t[2]) == 2:
+                o = ev(t[2][0])
+                if o != EQ:
+                    return (o,)
+                clo = _strip(t[2][1])
+                if clo[0] != 'closure' or clo[1] not in facts.bodies:
+                    raise Stuck('then_with with a non-local closure')
+                v, _ = dt.decide(clo[1], {1: clo}, atom)
+                return (v,)
+            if t[0] == 'call' and t[1].endswith('Ordering::then') and len(t[2]) == 2:
+                o = ev(t[2][0])
+                return (o if o != EQ else ev(t[2][1]),)
+            if t[0] == 'adt' and t[1].endswith('cmp::Ordering'):
+                return ({'Less': LESS, 'Equal': EQ, 'Greater': GT}[t[2]],)
+            if t[0] == 'discr':
+                v = ev(t[1])
+                if v in (LESS, EQ, GT):
+                    return (v,)
+            if t[0] == 'field' and isinstance(t[2], str) and t[2].startswith('^') and t[1][0] == 'closure':
+                from symex import project
+                r = project(t[1], t[2])
+                if r[0] != 'field':
+                    return (ev(r),)
+            if t[0] == 'closure':
+                return (t,)
+            return None
+        return atom
     bad = None
-    for (ka, kb) in seq:
-        if ka is None or kb is None or ka[1] != kb[1] or {ka[0], kb[0]} != {'self', 'other'} or ka[0] != 'self':
-            bad = (ka, kb)
-        else:
-            names.append(ka[1])
+    try:
+        for ol in (LESS, EQ, GT):
+            for ow in (LESS, EQ, GT):
+                for ov in (LESS, EQ, GT):
+                    env = {'len': ol, 'weight': ow, 'val': ov}
+                    got, _ = dt.decide(b.defp, {1: ('self',), 2: ('other',)}, make_atom(env))
+                    if isinstance(got, dict) and '<variant>' in got:
+                        got = {'Less': LESS, 'Equal': EQ, 'Greater': GT}.get(got['<variant>'], got)
+                    want = ol if ol != EQ else (ow if ow != EQ else ov)
+                    if got != want and bad is None:
+                        nm = {LESS: 'Less', EQ: 'Equal', GT: 'Greater'}
+                        bad = 'for (len, weight, val) comparing as (%s, %s, %s) cmp answers %s, the lexicographic order answers %s' % (nm[ol], nm[ow], nm[ov], nm.get(got, got), nm[want])
+    except (Stuck, KeyError, TypeError) as e:
+        rep.indet('E4.O4: Ord::cmp of BitSeq outside the recognised fragment: %s' % e)
+        return
     inst = '%s|chain' % b.defp
-    if bad or not shape_ok:
-        rep.violation('E4.O4-order-chain', inst,
-                      'BitSeq::cmp is not a lexicographic chain of key comparisons self.k <=> other.k (%s)' % (bad,),
-                      where=b.where())
+    if bad:
+        rep.violation('E4.O4-order-chain', inst, 'BitSeq::cmp is not the order by length, then weight, then value: %s; the keys must include every Eq field (len, val) for consistency with ==' % bad, where=b.where())
         return
-    want = ['len', 'weight', 'val']
-    if names != want:
-        rep.violation('E4.O4-order-chain', inst,
-                      'BitSeq::cmp compares keys %s; documented order is by length, then weight, then value %s; '
-                      'the keys must include every Eq field (len, val) for consistency with ==' % (names, want),
-                      where=b.where())
+    if used != {'len', 'weight', 'val'}:
+        rep.violation('E4.O4-order-chain', inst, 'BitSeq::cmp consults the keys %s only; (len, val) are the derived-Eq fields and must both decide the order' % sorted(used), where=b.where())
         return
-    rep.ok('E4.O4-order-chain', inst, 'then_with chain over keys %s; (len, val) are all the derived-Eq fields' % names)
+    rep.ok('E4.O4-order-chain', inst, 'lexicographic in (len, weight, val) on all 27 outcome triples')
     # partial_cmp delegates
     pc = [x for x in eng.bodies if x.name == 'partial_cmp' and x.impl and x.impl.get('self_adt') == eng.adt]
     for x in pc:
